@@ -675,6 +675,10 @@ func c13RunOne(seed int64, idx int, perturbed bool) (*c13Run, []map[string]strin
 	if !ok2 {
 		report("client", why2)
 	}
+	if !desync && ok1 && ok2 {
+		cInW.Close()
+		sOutW.Close()
+	}
 	if desync {
 		if os.Getenv("C13_DEBUG") != "" {
 			fmt.Fprintf(os.Stderr, "DESYNC %s %v\n client: %q\n server: %q\n serverIn: %q\n clientOut: %q\n", r.id, r.stats, r.cChunks, r.sChunks, r.sIn.snapshot(), r.cOut.snapshot())
